@@ -255,7 +255,9 @@ class RunMonitor:
             else:
                 exc = {"ValueError": ValueError, "RuntimeError": RuntimeError, "ZeroDivisionError": ZeroDivisionError,
                        "KeyError": KeyError, "IndexError": IndexError, "AttributeError": AttributeError,
-                       "FloatingPointError": FloatingPointError}[name]("injected")
+                       "FloatingPointError": FloatingPointError, "StopIteration": StopIteration, "AssertionError": AssertionError,
+                       "OverflowError": OverflowError, "TypeError": TypeError, "LookupError": LookupError,
+                       "ArithmeticError": ArithmeticError, "OSError": OSError, "NotImplementedError": NotImplementedError}[name]("injected")
             self.fault["exc_obj"] = exc
             raise exc
         good = P.clean(x)
@@ -1429,6 +1431,14 @@ class RunMonitor:
             self.fl = b.function_logger
             if len(self.calls) > 0:
                 self.v("C08/target-called-during-construction", n=len(self.calls))
+            late = self.spec.get("late_options") or {}
+            for k_, v_ in late.items():
+                # options set on the constructed object before optimize() (the repository's own tests do this): they are
+                # the user's settings for this run
+                b.options[k_] = v_
+                P.options[k_] = v_
+            if late:
+                self.c("late_options_runs")
             self.budget_user = int(b.options["max_fun_evals"])
             self.max_iter_user = b.options["max_iter"]
             self.tol_noise = float(b.options["tol_noise"])
